@@ -1442,7 +1442,7 @@ static int sp_dgemm(char tA, char tB, number alpha, void *a, void *b,
       return -1;
     }
 
-    int j, l;
+    int j, l, ldA = k;
     for (j=0; j<n; j++)
       colptr_new[j+1] = colptr_new[j] +
       MAX(((B->colptr[j+1]-B->colptr[j])>0)*m, C->colptr[j+1]-C->colptr[j]);
@@ -1468,7 +1468,7 @@ static int sp_dgemm(char tA, char tB, number alpha, void *a, void *b,
         double a_ = alpha.d*((double *)B->values)[k];
         axpy[DOUBLE](&m, &a_, A +
             (tA=='N' ? B->rowind[k]*m : B->rowind[k]),
-            (tA=='N' ? &intOne : &k),
+            (tA=='N' ? &intOne : &ldA),
             (double *)Z->values + Z->colptr[j], &intOne);
       }
 
